@@ -329,6 +329,20 @@ Proof.
     try (rewrite <- Hl; pose proof (zlen_nonneg (concat rows)); destruct Hwf; nia).
 Qed.
 
+Lemma map_repeat' {X Y} (f : X -> Y) (x : X) n : map f (repeat x n) = repeat (f x) n.
+Proof. induction n as [|n IH]; cbn; [reflexivity|now rewrite IH]. Qed.
+Lemma atoms_zrepeat (v a : Z) : zrepeat (Atom v) a = atoms (zrepeat v a).
+Proof. unfold zrepeat, atoms. symmetry. apply map_repeat'. Qed.
+Lemma map_atoms_zrepeat (r : list Z) a : zrepeat (atoms r) a = map atoms (zrepeat r a).
+Proof. unfold zrepeat. symmetry. apply map_repeat'. Qed.
+Lemma uniform_zrepeat (r : list Z) a : uniform (zlen r) (map atoms (zrepeat r a)) = true.
+Proof.
+  unfold uniform, zrepeat. apply forallb_forall. intros x Hx. apply in_map_iff in Hx. destruct Hx as (y & <- & Hy).
+  apply repeat_spec in Hy. subst y. unfold atoms. rewrite zlen_map. apply Z.eqb_refl.
+Qed.
+Lemma zlen_zrepeat' {X} (x : X) a : 0 <= a -> zlen (zrepeat x a) = a.
+Proof. intros H. unfold zlen, zrepeat. rewrite repeat_length. lia. Qed.
+
 (* ---------- the arguments of an operation are values of the Rust types: usize extents, vectors that exist ---------- *)
 Definition wf_op (o : op) : Prop :=
   match o with
@@ -336,7 +350,15 @@ Definition wf_op (o : op) : Prop :=
   | FromRow _ l | FromCol _ l => es * zlen l <= imax c /\ zlen l <= umax c      (* a vector that exists *)
   | FromArrays _ _ nc rows => rows_ok rows /\ uniform nc (map atoms rows) = true /\ 0 <= nc <= umax c
   | TryFromRows _ _ rows | FromIter _ rows => rows_ok rows
-  | MacroOp _ _ _ _ _ => False          (* the macro arms expand to the constructors above; not part of this theorem *)
+  | MacroOp _ arm a b rows =>            (* the arms of matrix! / row_vec! / col_vec!: the literal they are given exists *)
+      match arm with
+      | 1 => is_usize c a /\ is_usize c b
+      | 2 => 0 <= a /\ zlen (hd [] rows) <= umax c /\ rows_ok (zrepeat (hd [] rows) a)
+      | 3 => rows_ok rows /\ uniform (zlen (hd [] rows)) (map atoms rows) = true
+      | 5 | 8 => 0 <= a <= umax c /\ es * a <= imax c
+      | 6 | 9 => es * zlen (hd [] rows) <= imax c /\ zlen (hd [] rows) <= umax c
+      | _ => True
+      end
   | SwapRows _ a b | SwapCols _ a b => 0 <= a /\ 0 <= b
   | _ => True
   end.
@@ -360,7 +382,24 @@ Proof.
   - destruct Hw as (H1 & H2 & H3). apply put_some_coh; auto. apply from_arrays_coh; auto.
   - apply store_coh; auto. intros m E. eapply try_from_rows_coh; eauto.
   - apply store_val_coh; auto. intros m E. eapply from_iter_coh; eauto.
-  - contradiction.
+  - (* the macro arms *)
+    destruct arm as [|q|q]; cbn [fst]; try exact Hp;
+      [apply put_some_coh; auto using new_coh|].
+    do 4 (try destruct q as [q|q|]); cbn [fst]; try exact Hp.
+    all: try (destruct rows as [|r0 rest]; cbn [fst hd] in *; [exact Hp|]).
+    all: try (apply put_some_coh; [exact Hp|]).
+    + (* 7: col_vec![] *) apply (from_row_coh []). cbn. destruct Hwf. split; lia.
+    + (* 9: col_vec![..] *) apply from_row_coh. exact Hw.
+    + (* 5: row_vec![7; a] *) rewrite atoms_zrepeat. apply from_row_coh. rewrite zlen_zrepeat' by lia. lia.
+    + (* 3: matrix![[..], [..]] *) destruct Hw as [Hr Hu]. apply from_arrays_coh; auto.
+      pose proof (zlen_nonneg r0). destruct Hr as (_ & R2 & _). specialize (R2 r0 (or_introl eq_refl)). lia.
+    + (* 6: row_vec![..] *) apply from_row_coh. exact Hw.
+    + (* 8: col_vec![7; a] *) rewrite atoms_zrepeat. apply from_row_coh. rewrite zlen_zrepeat' by lia. lia.
+    + (* 4: row_vec![] *) apply (from_row_coh []). cbn. destruct Hwf. split; lia.
+    + (* 2: matrix![[..]; a] *) destruct Hw as (Ha & Hl & Hr). rewrite map_atoms_zrepeat. apply from_arrays_coh; auto.
+      * apply uniform_zrepeat.
+      * pose proof (zlen_nonneg r0). lia.
+    + (* 1: matrix![[7; b]; a] *) destruct Hw. apply store_op_coh; auto. intros m E. eapply (with_value_coh a b); eauto.
   - apply put_some_coh; auto using new_coh.
   (* observe: the pool is returned as it is *)
   - need_slot p s Hp; exact Hp.
